@@ -352,9 +352,14 @@ func SimpleOperand(in any) bool {
 //@   ensures[string-quoted] IsStringVal(in) ==> err == nil && verifspec.SameText(s, "'"+strings.ReplaceAll(StringOf(in), "'", "''")+"'")
 //@   ensures[column-quoted] IsColumnVal(in) && err == nil ==> len(ColumnOf(in)) > 0 && !strings.ContainsRune(ColumnOf(in), '"') && verifspec.SameText(s, "\""+ColumnOf(in)+"\"")
 //@   ensures[x-expression-text] IsExprVal(in) ==> s == RenderText(b, ExprOf(in))
+//@   ensures[number-text] err == nil && IsPlainNumber(in) ==> s == NumberText(in)
 //@   ensures[value-text-nonempty] err == nil && (IsStringVal(in) || IsColumnVal(in) || IsPlainNumber(in) || IsBoundaryVal(in)) ==> s != ""
 //@   assert list-item-goes-through-render before "strs = append(strs, s)": s == RenderText(b, e)
 //@   loop 0: rangeinv true
+
+// NumberText: a number is written the way fmt's %v writes it (shortest text that reads back
+// as the same number).
+func NumberText(a any) string { return fmt.Sprintf("%v", a) }
 
 // IsListVal / ListOf: a holds a list of expressions.
 func IsListVal(a any) bool { _, ok := a.([]*expr.Expression); return ok }
